@@ -192,7 +192,8 @@ def _do_job(job, fd, vtty, termios, fcntl, array) -> dict:
     hang = ""
     try:
         try:
-            final = vtty.run_op(rec, op)
+            with vtty.watch_threads(rec):
+                final = vtty.run_op(rec, op)
         except vtty.Hang as h:
             hang = str(h)
             final = {"status": "hung", "kind": type(h).__name__, "rb": [], "rnone": True, "val": dict(vtty.NOVAL)}
@@ -201,7 +202,10 @@ def _do_job(job, fd, vtty, termios, fcntl, array) -> dict:
         elapsed = time.monotonic() - t0
         sys.stdout = old_stdout
     # 4. observations
-    after_raw = termios.tcgetattr(fd)
+    after_raw = termios.tcgetattr(fd)  # at the moment the call returned
+    vtty.settle(rec)  # then the work it left behind (intercepted timers) runs
+    final.update(spawned=list(rec.spawned), late=list(rec.late),
+                 attr_settled=codec.to_record(termios.tcgetattr(fd)))
     _say({"want": "sentinel"})
     termios.tcsetattr(fd, termios.TCSANOW, _raw_word(termios, fd))
     residual = bytearray()
